@@ -54,7 +54,7 @@ type GenCase struct {
 	B    []bool    `json:",omitempty"`
 }
 
-var genKinds = []string{"sphere", "sphereU", "hemi", "cubeW", "cubeQ", "cyl", "circle", "quad", "cone", "polygon", "circleEx", "line", "shape", "closedShape", "repeatCircle", "repeatLine", "repeatFib", "marching", "tri"}
+var genKinds = []string{"sphere", "sphereU", "hemi", "cubeW", "cubeQ", "cyl", "circle", "quad", "cone", "polygon", "circleEx", "line", "shape", "closedShape", "repeatCircle", "repeatLine", "repeatFib", "marching", "tri", "triConstrained"}
 
 func genGen(t *rapid.T) GenCase {
 	c := GenCase{Kind: rapid.SampledFrom(genKinds).Draw(t, "kind")}
@@ -69,7 +69,7 @@ func genGen(t *rapid.T) GenCase {
 	}
 	// path / point material for extrusions and triangulation
 	n := rapid.IntRange(2, 8).Draw(t, "np")
-	if c.Kind == "tri" {
+	if c.Kind == "tri" || c.Kind == "triConstrained" {
 		n = rapid.IntRange(3, 24).Draw(t, "npts")
 	}
 	for i := 0; i < n*3; i++ {
@@ -250,6 +250,24 @@ func buildGen(c GenCase) (m modeling.Mesh, ok bool) {
 			return m, false
 		}
 		return triangulation.BowyerWatson(pts), true
+	case "triConstrained":
+		// the triangulation clipped by a convex outline (a regular polygon that cuts through it)
+		var pts []vector2.Float64
+		for i := 4; i+1 < len(c.F); i += 2 {
+			pts = append(pts, vector2.New(c.F[i], c.F[i+1]))
+		}
+		if len(pts) < 3 {
+			return m, false
+		}
+		sides := 3 + I[0]%6
+		radius := 0.5 + float64(I[1]%9)*0.55
+		centre := vector2.New(float64(I[2]%5-2)*0.6, 0.3)
+		var outline []vector2.Float64
+		for k := 0; k < sides; k++ {
+			a := 2*math.Pi*float64(k)/float64(sides) + 0.1
+			outline = append(outline, centre.Add(vector2.New(math.Cos(a), math.Sin(a)).Scale(radius)))
+		}
+		return triangulation.ConstrainedBowyerWatson(pts, []triangulation.Constraint{triangulation.NewConstraint(outline)}), true
 	}
 	return m, false
 }
